@@ -4,6 +4,7 @@ from __future__ import annotations
 import ast
 
 from pta import paths as P
+from pta.pat import find, has
 from pta.check import Spec
 from pta.flow import Flow, paths_of
 from pta.model import AnalysisError
@@ -79,14 +80,22 @@ def r_collectives(c):
         raise AnalysisError(f"only {n_br} rank-dependent branches found (floor 2)")
     # find_distributed_partition: everybody continues with the broadcast batches
     fd = m.func(FUNCS[0])
-    src = ast.unparse(fd)
-    c.check("comm_batches = comm_batches_or_exc" in src
-            and "mpi_communicator.bcast(comm_batches)" in src, "R09-COLLECTIVES",
-            "distributed.partition.find_distributed_partition",
+    comm = fd.args.args[0].arg
+    sent = find(fd, f"{comm}.bcast($batches)")
+    cont = find(fd, f"""
+$recv = {comm}.bcast(None)
+if isinstance($recv, Exception):
+    raise $recv
+$batches = $recv
+""")
+    c.check(bool(cont) and any(e["$batches"] == cont[0]["$batches"] for e in sent),
+            "R09-COLLECTIVES", "distributed.partition.find_distributed_partition",
             "all-ranks-use-root-schedule", m.loc(m.module_of(fd), fd),
-            "non-root ranks do not continue with the schedule computed by the root")
+            "non-root ranks do not continue with the schedule the root computed and "
+            "broadcast (same variable on both branches)")
     # the reduction operator used for the dependency union is commutative and freed
-    c.check("commute=True" in src and "set_dict_union_mpi_op.Free()" in src,
+    ops = find(fd, "$op = MPI.Op.Create($$f, commute=True)")
+    c.check(bool(ops) and has(fd, f"{ops[0]['$op']}.Free()") if ops else False,
             "R09-COLLECTIVES", "distributed.partition.find_distributed_partition",
             "union-op-commutative-and-freed", m.loc(m.module_of(fd), fd),
             "the MPI reduction operator is not declared commutative / not freed")
@@ -116,22 +125,24 @@ def r_nocomm(c):
                 "cannot-return-a-communication-node", m.loc(ci.module, fd),
                 "the handler can return the communication node (or a copy of it): "
                 "parts would contain communication nodes")
-    src = ast.unparse(ci.methods["map_distributed_recv"])
-    c.check("self._get_placeholder_for(name, expr)" in src and "self.recvd_ary_to_name[expr]" in src,
+    mr = ci.methods["map_distributed_recv"]
+    ep = mr.args.args[1].arg
+    c.check(has(mr, f"$name = self.recvd_ary_to_name[{ep}]\nreturn self._get_placeholder_for($name, {ep})"),
             "R09-NOCOMM", f"{short(R)}.map_distributed_recv", "becomes-named-placeholder",
-            m.loc(ci.module, ci.methods["map_distributed_recv"]),
+            m.loc(ci.module, mr),
             "a receive is not replaced by the placeholder of its assigned name")
     gp = ci.methods["_get_placeholder_for"]
-    gs = ast.unparse(gp)
-    c.check("make_placeholder(name, expr.shape, expr.dtype, expr.tags, expr.axes)" in gs
-            and "self.partition_input_name_to_placeholder[name] = placeholder" in gs,
+    np_, ep = gp.args.args[1].arg, gp.args.args[2].arg
+    c.check(has(gp, f"make_placeholder({np_}, {ep}.shape, {ep}.dtype, {ep}.tags, {ep}.axes)")
+            and has(gp, f"self.partition_input_name_to_placeholder[{np_}] = $ph")
+            and has(gp, f"self.partition_input_name_to_placeholder.get({np_})"),
             "R09-NOCOMM", f"{short(R)}._get_placeholder_for", "one-placeholder-per-name",
             m.loc(ci.module, gp),
             "part inputs are not represented by one placeholder per name mirroring the "
             "array's shape/dtype/tags/axes")
     # output arrays of the part are not turned into placeholders
     rec = ci.methods["rec"]
-    c.check("expr not in self.output_arrays" in ast.unparse(rec), "R09-NOCOMM",
+    c.check(has(rec, f"{rec.args.args[1].arg} not in self.output_arrays"), "R09-NOCOMM",
             f"{short(R)}.rec", "own-outputs-are-computed", m.loc(ci.module, rec),
             "a part's own output could be replaced by a placeholder for itself")
 
@@ -157,71 +168,98 @@ def r_tags(c):
         f"receives and sends are not both renumbered as map[own symbolic tag] through "
         f"one mapping ({sorted(maps)}): the two ends of a message get different integers")
     # first-seen numbering with a strictly increasing counter
-    loop = [l for l in ast.walk(fd) if isinstance(l, ast.For) and "flatten(all_tags)" in ast.unparse(l.iter)]
-    ok = False
-    if len(loop) == 1:
-        body = loop[0].body
-        if len(body) == 1 and isinstance(body[0], ast.If) and "not in sym_tag_to_int_tag" in ast.unparse(body[0].test):
-            b = [ast.unparse(s) for s in body[0].body]
-            ok = b == ["sym_tag_to_int_tag[sym_tag] = next_tag", "next_tag += 1"]
-    c.check(ok, "R09-TAGS", "distributed.tags.number_distributed_tags",
+    fs = find(fd, """
+for $t in flatten($all):
+    if $t not in $map:
+        $map[$t] = $next
+        $next += 1
+""")
+    c.check(len(fs) == 1, "R09-TAGS", "distributed.tags.number_distributed_tags",
             "first-seen-strictly-increasing", where,
             "a new symbolic tag is not assigned the current counter followed by an "
             "increment (distinct messages could share an integer)")
-    c.check("next_tag = base_tag" in src, "R09-TAGS", "distributed.tags.number_distributed_tags",
-            "starts-at-base_tag", where, "numbering does not start at base_tag")
-    # the collection numbered is an ordered one on every rank (C17 checks no set)
-    tg = [s for s in ast.walk(fd) if isinstance(s, ast.Assign) and ast.unparse(s.targets[0]) == "tags"]
-    c.check(len(tg) == 1 and ast.unparse(tg[0].value).startswith("tuple(["), "R09-TAGS",
-            "distributed.tags.number_distributed_tags", "ordered-tag-collection", where,
-            "the local tags are not collected into a tuple/list")
-    c.check("mpi_communicator.gather(tags, root=root_rank)" in src, "R09-TAGS",
-            "distributed.tags.number_distributed_tags", "gathers-all-ranks-tags", where,
-            "the tags of all ranks are not gathered on the root")
-    c.check("mpi_communicator.bcast((sym_tag_to_int_tag, next_tag), root=root_rank)" in src
-            and "sym_tag_to_int_tag, next_tag = mpi_communicator.bcast(None, root=root_rank)" in src,
-            "R09-TAGS", "distributed.tags.number_distributed_tags",
-            "all-ranks-use-root-numbering", where,
-            "ranks do not all continue with the root's mapping and next tag")
+    base = fd.args.args[2].arg
+    comm = fd.args.args[0].arg
+    if fs:
+        e = fs[0]
+        c.check(has(fd, f"{e['$next']} = {base}"), "R09-TAGS",
+                "distributed.tags.number_distributed_tags", "starts-at-base_tag", where,
+                "numbering does not start at base_tag")
+        # the mapping used for renumbering is the one that was numbered / broadcast
+        used = {x[1] for x in maps}
+        c.check(used == {e["$map"]}, "R09-TAGS", "distributed.tags.number_distributed_tags",
+                "renumbers-through-the-numbered-mapping", where,
+                f"tags are rewritten through {sorted(used)} but numbered in {e['$map']}")
+        g = find(fd, f"{comm}.gather($tags, root=$$r)")
+        c.check(len(g) == 1 and has(fd, f"{g[0]['$tags']} = tuple([$$a for $$b in $$c] + $$d)")
+                or (len(g) == 1 and has(fd, f"{g[0]['$tags']} = tuple($$a)")), "R09-TAGS",
+                "distributed.tags.number_distributed_tags", "gathers-ordered-local-tags", where,
+                "the local tags gathered on the root are not an ordered tuple/list")
+        c.check(has(fd, f"{comm}.bcast(({e['$map']}, {e['$next']}), root=$$r)")
+                and has(fd, f"{e['$map']}, {e['$next']} = {comm}.bcast(None, root=$$r)"),
+                "R09-TAGS", "distributed.tags.number_distributed_tags",
+                "all-ranks-use-root-numbering", where,
+                "ranks do not all continue with the root's mapping and next tag")
 
 
 def r_names(c):
     m = c.model
     fd = m.func(D + "partition._make_distributed_partition")
     where = m.loc(m.module_of(fd), fd)
-    src = ast.unparse(fd)
-    c.check("for name, val in name_to_part_output.items()" in src
-            and "name_to_output[name] = _verify_is_array(comm_replacer.rec(val))" in src
-            and "output_names=frozenset(name_to_part_output.keys())" in src,
-            "R09-NAMES", "distributed.partition._make_distributed_partition",
+    name = "distributed.partition._make_distributed_partition"
+    loops = find(fd, "for $pid, $part_out in enumerate($$per_part):\n    $$body")
+    outs = find(fd, """
+for $name, $val in $part_out.items():
+    assert $name not in $all_out
+    $all_out[$name] = _verify_is_array($repl.rec($val))
+""")
+    c.check(len(outs) == 1, "R09-NAMES", name, "outputs-recursed-and-each-name-once", where,
+            "a part's outputs are not each mapped through the input replacer and added "
+            "once to the partition's outputs")
+    if len(outs) != 1:
+        return
+    e = outs[0]
+    parts = [x for x in ast.walk(fd) if isinstance(x, ast.Call)
+             and ast.unparse(x.func) == "DistributedGraphPart"]
+    if len(parts) != 1:
+        raise AnalysisError("anchor vanished: DistributedGraphPart(...) construction")
+    kws = {k.arg: k.value for k in parts[0].keywords}
+    from pta.pat import match, compile_pat
+
+    def kw_is(k, pattern):
+        if k not in kws:
+            return False
+        env = dict(e)
+        env.pop("@node", None)
+        return match(compile_pat(pattern)[1], kws[k], env)
+    c.check(kw_is("output_names", "frozenset($part_out.keys())"), "R09-NAMES", name,
             "output-names-and-outputs-from-one-mapping", where,
             "a part's output_names and the entries added to name_to_output do not come "
             "from the same mapping of that part")
-    c.check("assert name not in name_to_output" in src, "R09-NAMES",
-            "distributed.partition._make_distributed_partition", "each-name-produced-once",
-            where, "an output name could be produced by two parts")
-    c.check("needed_pids=frozenset({part_id - 1} if part_id else {})" in src, "R09-NAMES",
-            "distributed.partition._make_distributed_partition", "parts-form-a-chain", where,
+    c.check(kw_is("needed_pids", "frozenset({$p - 1} if $p else {})"), "R09-NAMES", name,
+            "parts-form-a-chain", where,
             "a part no longer depends on exactly its predecessor (acyclic part order)")
-    c.check("user_input_names=frozenset(comm_replacer.user_input_names)" in src
-            and "partition_input_names=frozenset(comm_replacer.partition_input_name_to_placeholder.keys())" in src,
-            "R09-NAMES", "distributed.partition._make_distributed_partition",
-            "input-names-from-the-replacer", where,
+    c.check(kw_is("user_input_names", "frozenset($repl.user_input_names)")
+            and kw_is("partition_input_names",
+                      "frozenset($repl.partition_input_name_to_placeholder.keys())"),
+            "R09-NAMES", name, "input-names-from-the-replacer", where,
             "the names a part reads are not the ones its input replacer recorded")
-    c.check("name_to_send_nodes.setdefault(name, []).append(comm_replacer.map_distributed_send(send_node))"
-            in src and "name = sent_ary_to_name[send_node.data]" in src, "R09-NAMES",
-            "distributed.partition._make_distributed_partition", "sends-keyed-by-sent-name",
-            where, "send nodes are not keyed by the name of the array they send")
-    c.check("recvd_ary_to_name[local_recv_id_to_recv_node[recv_id]]: local_recv_id_to_recv_node[recv_id]"
-            in src, "R09-NAMES", "distributed.partition._make_distributed_partition",
-            "recvs-keyed-by-received-name", where,
+    c.check(has(fd, """
+$sn = $$tbl[$sid]
+$nm = $sent_names[$sn.data]
+$sends.setdefault($nm, []).append($repl2.map_distributed_send($sn))
+"""), "R09-NAMES", name, "sends-keyed-by-sent-name", where,
+            "send nodes are not keyed by the name of the array they send")
+    c.check(kw_is("name_to_recv_node",
+                  "constantdict({$rn[$ids[$r]]: $ids[$r] for $r in $$coll})"), "R09-NAMES",
+            name, "recvs-keyed-by-received-name", where,
             "receive nodes are not keyed by the name assigned to the received array")
 
 
 SPEC = Spec(
     prop="C09",
     rules=[r_collectives, r_nocomm, r_tags, r_names],
-    floors={"R09-COLLECTIVES": 8, "R09-NOCOMM": 7, "R09-TAGS": 6, "R09-NAMES": 6},
+    floors={"R09-COLLECTIVES": 8, "R09-NOCOMM": 7, "R09-TAGS": 5, "R09-NAMES": 6},
     explanation=(
         "Decides code-shape conditions without which the invariants cannot hold, "
         "not the invariants on concrete partitions. R09-COLLECTIVES "
